@@ -179,3 +179,21 @@ Theorem TIE_genir_safe_names_ok : forall T cap d g k f,
   generate_ir cap d g k = Some f -> gen_input_safe_semantic T f.
 Proof. exact gen_safe_names_ok. Qed.
 Print Assumptions TIE_genir_safe_names_ok.
+
+(** names_ok for well-formed definitions: when the output is the first key of `formats`, does not reappear, and every index is
+    sized by a tensor that has a format ([struct_ok]), three conjuncts of names_ok hold BY CONSTRUCTION of T1 and names_ok is the
+    hygiene proper: the output's name, the reserved prefixes and the output's index names against the generated set *)
+Theorem TIE_genir_names_ok_struct : forall d g, struct_ok d = true -> names_ok d g = hygienic d.
+Proof. exact names_ok_struct. Qed.
+Print Assumptions TIE_genir_names_ok_struct.
+
+(** fuel matters and ig_fuel is enough on a matrix-vector product; the hypotheses of the theorems hold there *)
+Theorem TIE_genir_fuel_example :
+  ig_fuel ex_g_mv = 7%nat
+  /\ generate_ir_fuel None 2 ex_d_mv ex_g_mv KernelType_evaluate = None
+  /\ (exists f, generate_ir_fuel None 3 ex_d_mv ex_g_mv KernelType_evaluate = Some f
+                /\ generate_ir None ex_d_mv ex_g_mv GlueGen.KernelType_evaluate = Some f
+                /\ generate_ir_fuel None 20 ex_d_mv ex_g_mv KernelType_evaluate = Some f)
+  /\ names_ok ex_d_mv ex_g_mv = true /\ graph_outputs_of ex_d_mv ex_g_mv = true.
+Proof. exact fuel_example. Qed.
+Print Assumptions TIE_genir_fuel_example.
